@@ -148,6 +148,7 @@ impl ComplexSelector {
 
         let mut i1 = 0;
         let mut i2 = 0;
+        let mut previous_combinator: Option<Combinator> = None;
 
         loop {
             let remaining1 = self.components.len() - i1;
@@ -209,6 +210,13 @@ impl ComplexSelector {
                 return false;
             }
 
+            if !compatible_with_previous_combinator(
+                previous_combinator,
+                &other.components[i2..after_super_selector],
+            ) {
+                return false;
+            }
+
             if let Some(ComplexSelectorComponent::Combinator(combinator1)) =
                 self.components.get(i1 + 1)
             {
@@ -232,6 +240,7 @@ impl ComplexSelector {
 
                 i1 += 2;
                 i2 = after_super_selector + 1;
+                previous_combinator = Some(*combinator1);
             } else if let Some(ComplexSelectorComponent::Combinator(combinator2)) =
                 other.components.get(after_super_selector)
             {
@@ -240,9 +249,11 @@ impl ComplexSelector {
                 }
                 i1 += 1;
                 i2 = after_super_selector + 1;
+                previous_combinator = None;
             } else {
                 i1 += 1;
                 i2 = after_super_selector;
+                previous_combinator = None;
             }
         }
     }
@@ -268,6 +279,40 @@ impl ComplexSelector {
             }
         })
     }
+}
+
+/// Returns whether a superselector whose last two matched compounds are joined
+/// by `previous` allows the subselector to have additional components between
+/// the two compounds it matched them against.
+///
+/// `matched` is those skipped components followed by the compound that was
+/// finally matched.
+fn compatible_with_previous_combinator(
+    previous: Option<Combinator>,
+    matched: &[ComplexSelectorComponent],
+) -> bool {
+    let previous = match previous {
+        Some(previous) if matched.len() > 1 => previous,
+        _ => return true,
+    };
+
+    // The child and next sibling combinators require that the *immediately*
+    // following component be a subselector.
+    if previous != Combinator::FollowingSibling {
+        return false;
+    }
+
+    // The following sibling combinator does allow intermediate components, but
+    // only if they're all siblings.
+    matched.windows(2).all(|pair| match pair {
+        [_, ComplexSelectorComponent::Combinator(combinator)] => matches!(
+            combinator,
+            Combinator::FollowingSibling | Combinator::NextSibling
+        ),
+        [ComplexSelectorComponent::Combinator(..), _] => true,
+        // two adjacent compounds are joined by a descendant combinator
+        _ => false,
+    })
 }
 
 #[derive(Clone, Debug, Eq, PartialEq, Copy, Hash)]
